@@ -1275,9 +1275,92 @@ def check_facade(ctx, case):
                       f"load of the expected form gave {back!r}")
 
 
+# ===================================================================================== predicates inside name_mapping
+# skip / only / omit_default / map pairs take the same predicates as loader() and dumper(); the stack they are checked against
+# ends with [..., model location, field location], so chains that reach above the owning model must work there too.
+import dataclasses as _dc  # noqa: E402
+
+NMInner = _dc.make_dataclass("NMInner", [("x", int, _dc.field(default=0)), ("y", int, _dc.field(default=0))])
+NMOuter = _dc.make_dataclass("NMOuter", [("a", NMInner), ("b", NMInner)])
+_ALL_POS = [("a", "x"), ("a", "y"), ("b", "x"), ("b", "y")]
+NM_PREDS = {
+    "field_id": (lambda: "x", [("a", "x"), ("b", "x")]),
+    "model_field": (lambda: P[NMInner].x, [("a", "x"), ("b", "x")]),
+    "outer_a_x": (lambda: P[NMOuter].a.x, [("a", "x")]),
+    "outer_b_x": (lambda: P[NMOuter].b.x, [("b", "x")]),
+    "regex": (lambda: "x|y", list(_ALL_POS)),
+    "or_of_chains": (lambda: P[NMOuter].a.x | P[NMOuter].b.y, [("a", "x"), ("b", "y")]),
+    "and_not": (lambda: P[NMInner].x & ~P[NMOuter].a.x, [("b", "x")]),
+    "outer_any_y": (lambda: P[NMOuter][NMInner].y, [("a", "y"), ("b", "y")]),
+    "type_int_under_b": (lambda: P[NMOuter].b[int], [("b", "x"), ("b", "y")]),
+}
+NM_USAGES = ["skip", "only", "omit_default", "map_const", "map_func"]
+
+
+def enum_nm():
+    for pname in NM_PREDS:
+        for usage in NM_USAGES:
+            for direction in ("dump", "load"):
+                if direction == "load" and usage in ("only", "omit_default"):
+                    continue
+                matched = NM_PREDS[pname][1]
+                if usage.startswith("map") and any(sum(1 for o, _ in matched if o == owner) > 1 for owner in ("a", "b")):
+                    continue   # two fields of one model mapped to one key: refused as a collision, rightly
+                yield {"kind": "nm", "pred": pname, "usage": usage, "dir": direction}
+
+
+def check_nm(ctx, case):
+    from adaptix import name_mapping  # noqa: PLC0415
+    make_pred, matched = NM_PREDS[case["pred"]]
+    matched = set(matched)
+    usage, direction = case["usage"], case["dir"]
+    pred = make_pred()
+    kw = {"skip": {"skip": pred}, "only": {"only": pred}, "omit_default": {"omit_default": pred},
+          "map_const": {"map": [(pred, "K")]}, "map_func": {"map": [(pred, lambda shape, fld: "K")]}}[usage]
+    retort = Retort(recipe=[name_mapping(NMInner, **kw)])
+    vals = {("a", "x"): 0, ("a", "y"): 5, ("b", "x"): 0, ("b", "y"): 6}   # x holds its default, y does not
+    if direction == "load":
+        vals = {("a", "x"): 7, ("a", "y"): 5, ("b", "x"): 8, ("b", "y"): 6}
+
+    def key_of(pos):
+        return "K" if usage.startswith("map") and pos in matched else pos[1]
+
+    def present(pos):
+        if usage == "skip":
+            return pos not in matched
+        if usage == "only":
+            return pos in matched
+        if usage == "omit_default":
+            return not (pos in matched and vals[pos] == 0)
+        return True
+
+    data: dict = {"a": {}, "b": {}}
+    for pos in _ALL_POS:
+        if present(pos):
+            data[pos[0]][key_of(pos)] = vals[pos]
+    obj = NMOuter(NMInner(vals[("a", "x")], vals[("a", "y")]), NMInner(vals[("b", "x")], vals[("b", "y")]))
+    ctx.case(["nm", case["pred"], usage, direction], len(matched) not in (0, 4),
+             sample={"pred": case["pred"], "usage": usage, "dir": direction, "expected_data": data},
+             labels=["part:name_mapping_predicates", f"nm:{usage}", f"nm_pred:{case['pred']}"])
+    try:
+        if direction == "dump":
+            got, exp = retort.dump(obj), data
+        else:
+            got = retort.load(data, NMOuter)
+            exp = NMOuter(*[NMInner(*[vals[(o, f)] if present((o, f)) else 0 for f in ("x", "y")]) for o in ("a", "b")])
+    except Exception as e:  # noqa: BLE001
+        got, exp = describe(e), "<no exception>"
+    if got != exp:
+        ctx.violation("name_mapping_predicate", (usage, case["pred"], direction), case,
+                      f"name_mapping(NMInner, {usage}=<{case['pred']}>): the predicate matches exactly {sorted(matched)}; "
+                      f"{direction} gave {got!r}, expected {exp!r}")
+
+
 def check_case(ctx: runner.Ctx, case):
     k = case["kind"]
-    if k == "facade":
+    if k == "nm":
+        check_nm(ctx, case)
+    elif k == "facade":
         check_facade(ctx, case)
     elif k == "pure":
         check_pure(ctx, case)
@@ -1328,6 +1411,15 @@ def explore(ctx: runner.Ctx):
             break
         for sname in sets:
             check_case(ctx, {"kind": "law", "law": name, "lhs": lhs, "rhs": rhs, "set": sname})
+    # 3aa. predicates inside name_mapping (skip / only / omit_default / map pairs)
+    n_nm = 0
+    for i, ncase in enumerate(enum_nm()):
+        n_nm += 1
+        if i % ctx.nshards == ctx.shard:
+            runner.guarded(ctx, lambda c: check_case(ctx, c), ncase)
+    ctx.mark_exhaustive(f"name_mapping predicates: {n_nm} cases = {len(NM_PREDS)} predicates (field id, P[Model].field, chains "
+                        f"reaching above the owning model, +, |, &~, regex, type under a field) x skip / only / omit_default / "
+                        f"constant and function map pairs x dump / load on a model used at two fields of an outer model")
     # 3a. facade factories with several predicates (small exhaustive sweep)
     n_facade = 0
     for i, fcase in enumerate(enum_facade(ctx.tier)):
